@@ -17,7 +17,8 @@ META = {
              "the equilibrium-range estimate (estimate_u10_from_source_terms) or arbitrary guesses in [1,30] m/s "
              "(windspeed_and_direction_from_spectra), st4/st4 and st4/st6 pairs, with and without a rate-of-change "
              "spectrum (+-20 % of the dissipation). Non-trivial = the balance has a root in (2,40) m/s and the estimate "
-             "is finite; distinct = sha1 of the case."),
+             "is finite; distinct = sha1 of the case."
+             " Cases include pond-scale seas peaked near 1 Hz and seas of marginal steepness (0.012-0.035) whose integrated dissipation is non-zero but below 1e-8 m^2/s (counted)."),
     "assumptions": [
         "in half of the cases the source-term / balance objects have been used before on a spectrum with another grid of the same shape (object reuse); every clause must hold regardless",
         "balance B(U) = sum_{f,theta} S_in(U)*df*dtheta + bulk dissipation - sum_{S_in>0} dE/dt*df*dtheta evaluated through the public classes (implicit roughness); root must be bracketed: B(U-0.05)*B(U+0.05) <= 0 (solver step tolerance 0.01 m/s x5); points where B(U+-0.05) is undefined (NaN roughness) are skipped and counted",
